@@ -58,6 +58,7 @@ def run(chk):
                 chk.violation("C06.release", n, K.short(n), f"insertion from {f.qualname}", "a connection enters the pool outside _release() (reuse predicate bypassed)")
 
     hunt2_rules(chk, repo)
+    hunt3_rules(chk, repo)
     # ---- C06.eofdone (shared with C02) ------------------------------------------------------------------
     eof_at_completion(chk, repo)
 
@@ -370,6 +371,49 @@ def _idle_watch(repo, get, rel, p: str) -> bool:
         return False
     pth = g.find_path(None, lambda n: n.kind == "exit" or (n.kind == "stmt" and isinstance(n.ast, ast.Return)), lambda n: n in watch, EXPLICIT, [(f, "n") for f in feeds])
     return pth is None
+
+
+def hunt3_rules(chk, repo):
+    """Rule written after the third defect hunt (F208): the idle watch covers the whole time in which no request is on the wire."""
+    # Bytes that arrive while nothing was asked for are unsolicited.  The watch in data_received() acts only while `idle` is set, so the flag has
+    # to stay set over every suspension point between taking the connection out of the pool and writing the request head: the trace callbacks
+    # awaited by _get() (on_connection_reuseconn) and by write_headers() (on_request_headers_sent).
+    get = repo.func(CONN, "BaseConnector._get")
+    g = cfg_of(get.node)
+    clears = [n for n in g.nodes if n.kind == "stmt" and isinstance(n.ast, ast.Assign) and isinstance(n.ast.targets[0], ast.Attribute) and n.ast.targets[0].attr == "idle" and isinstance(n.ast.value, ast.Constant) and n.ast.value.value is False]
+    if not clears:
+        chk.analysis_error("C06.reacquire.window: `<proto>.idle = False` not found in BaseConnector._get")
+    else:
+        awaits_ = [n for n in g.nodes if n.ast is not None and n.kind in ("stmt", "test", "for") and any(isinstance(a, ast.Await) for a in ast.walk(n.ast)) and not isinstance(n.ast, (ast.FunctionDef, ast.AsyncFunctionDef))]
+        rets = [n for n in g.nodes if n.kind == "stmt" and isinstance(n.ast, ast.Return) and n.ast.value is not None and "Connection(" in norm.raw(n.ast.value)]
+        p = g.find_path(clears, lambda n: n in rets, lambda n: False, EXPLICIT)
+        via = [n for n in (p or []) if n in awaits_]
+        if p is not None and not via:
+            # and the connection is looked at again after the last suspension
+            recheck = [n for n in g.nodes if n.kind == "test" and "is_connected()" in norm.raw(n.ast)]
+            last_aw = max((n.ast.lineno for n in awaits_ if n.ast.lineno < clears[0].ast.lineno and not isinstance(n.ast, ast.Return)), default=0)
+            if any(last_aw < r.ast.lineno <= clears[0].ast.lineno for r in recheck) or not last_aw:
+                chk.ok("C06.reacquire.window", clears[0].ast, "_get(): the connection stays idle (watched) while the reuse trace callbacks run, is re-tested after them, and is handed out without a further suspension")
+            else:
+                chk.violation("C06.reacquire.window", clears[0].ast, K.short(clears[0].ast), "if not proto.is_connected(): release and take the next one",
+                              "_get() awaits the reuse trace callbacks and hands the connection out without looking at it again: the watch may have closed it meanwhile")
+        else:
+            chk.violation("C06.reacquire.window", clears[0].ast, K.short(clears[0].ast), "proto.idle = False after the last await of _get()",
+                          "_get() clears the idle flag and then awaits the on_connection_reuseconn trace callbacks: a response the peer pushes while a callback is suspended is no longer caught by the idle watch, it is queued and handed to the request that has not been written yet - and the real answer shifts to the next request",
+                          path=g.fmt_path(p) if p else "")
+    sd = repo.func(REQ, "ClientRequestBase._send")
+    gs = cfg_of(sd.node)
+    wh = [n for n in gs.nodes if K.node_has(n, "writer.write_headers($S, $H)")]
+    on = [n for n in gs.nodes if n.kind == "stmt" and norm.raw(n.ast) == "protocol.idle = True"]
+    off = [n for n in gs.nodes if n.kind == "stmt" and norm.raw(n.ast) == "protocol.idle = False"]
+    if not wh:
+        chk.analysis_error("C06.reacquire.window: `await writer.write_headers(...)` not found in ClientRequestBase._send")
+    elif on and off and gs.find_path([gs.entry], lambda n: n in wh, lambda n: n in on, EXPLICIT) is None and gs.find_path(on, lambda n: n in wh, lambda n: n in off, EXPLICIT) is not None \
+            and gs.find_path(wh, lambda n: n is gs.exit, lambda n: n in off, EXPLICIT) is None:
+        chk.ok("C06.reacquire.window", wh[0].ast, "_send(): the connection is marked idle while write_headers() awaits the on_request_headers_sent callbacks (nothing is on the wire yet) and un-marked before the body is written")
+    else:
+        chk.violation("C06.reacquire.window", wh[0].ast, K.short(wh[0].ast), "protocol.idle = True; await writer.write_headers(...); protocol.idle = False",
+                      "write_headers() awaits the on_request_headers_sent trace callbacks before a byte of the request is written; bytes received in that window are taken for this request's response")
 
 
 def hunt2_rules(chk, repo):
